@@ -104,8 +104,10 @@ class ScopeNameFinder:
                 parameter_name = rope.base.pynames.ParameterName()
                 return (None, parameter_name)
             # the keyword of a call whose callee cannot be resolved is not a
-            # reference to a variable of the calling scope
-            return (None, None)
+            # reference to a variable of the calling scope; a tuple target
+            # (``a, b = 1, 2``) only looks like a keyword and is in no call
+            if self.worder.is_on_function_call_keyword(offset):
+                return (None, None)
         # class body
         if self._is_defined_in_class_body(holding_scope, offset, lineno):
             class_scope = holding_scope
